@@ -4,8 +4,8 @@ package interp
 
 import (
 	"fmt"
-	"os"
 	"go/types"
+	"os"
 	"strings"
 )
 
@@ -25,6 +25,7 @@ func init() {
 		"Assume":    zzAssume,
 		"Assert":    zzAssert,
 		"Cover":     zzCover,
+		"Note":      zzNote,
 		"Observe":   zzObserve,
 		"Implies":   zzImplies,
 		"And":       zzAnd,
@@ -306,4 +307,31 @@ func zzStrNo(fr *frame, args []value) value {
 	}
 	ps.alpha[v.Name] = "^" + excl
 	return ps.resolveValue(symStr{v})
+}
+
+func zzNote(fr *frame, args []value) value {
+	ps := needPath(fr)
+	label := concreteString(fr, args[0], "note label")
+	var t *Term
+	switch c := args[1].(type) {
+	case bool:
+		t = mkBool(c)
+	case symBool:
+		t = ps.resolve(c.t)
+	}
+	if t.isTrue() {
+		return nil
+	}
+	failed := t.isFalse()
+	if !failed {
+		r, _ := ps.w.solver.Check(mkNot(t), false)
+		failed = r == Sat
+	}
+	if failed {
+		if ps.notes == nil {
+			ps.notes = map[string]bool{}
+		}
+		ps.notes[label] = true
+	}
+	return nil
 }
